@@ -219,7 +219,17 @@ type dupProp struct {
 func (s *SpecValidator) validateDuplicatePropertyNames() *Result {
 	// definition can't declare a property that's already defined by one of its ancestors
 	res := pools.poolOfResults.BorrowResult()
-	for k, sch := range s.spec.Spec().Definitions {
+	// visit definitions in a stable order: the check gives up at the first circular ancestry found, and the cycle
+	// reported must not depend on map iteration
+	definitions := s.spec.Spec().Definitions
+	names := make([]string, 0, len(definitions))
+	for k := range definitions {
+		names = append(names, k)
+	}
+	sort.Strings(names)
+
+	for _, k := range names {
+		sch := definitions[k]
 		if len(sch.AllOf) == 0 {
 			continue
 		}
